@@ -445,6 +445,7 @@ func runC15(r *engine.Run) {
 			New:   func() interface{} { return newBand(cfg) },
 			Ops:   xops,
 			Snap:  func(obj interface{}) string { return chanSnap(snapOf(obj.(band.Band))) },
+			Warm:  bandWarm,
 			Depth: depth,
 			Check: func(c *engine.Case, obj interface{}, path []int, last string) {
 				m, res := env.model(path)
